@@ -221,7 +221,7 @@ func (s *handler) handleReader(ctx context.Context, r io.Reader, w io.Writer, rp
 				continue
 			}
 
-			s.handle(ctx, req, bwf, rpcError, func(bool) {}, nil)
+			s.handle(ctx, req, notifWriter(req, bwf), rpcError, func(bool) {}, nil)
 		}
 		bw.finish()
 	} else {
@@ -236,7 +236,19 @@ func (s *handler) handleReader(ctx context.Context, r io.Reader, w io.Writer, rp
 			return
 		}
 
-		s.handle(ctx, req, wf, rpcError, func(bool) {}, nil)
+		s.handle(ctx, req, notifWriter(req, wf), rpcError, func(bool) {}, nil)
+	}
+}
+
+// notifWriter returns w for a request that has an id and, for a notification, a
+// writer function whose output goes nowhere: a notification is never answered,
+// also when it fails (JSON-RPC 2.0 section 4.1), as on the WebSocket path.
+func notifWriter(req request, w func(func(io.Writer))) func(func(io.Writer)) {
+	if req.ID != nil {
+		return w
+	}
+	return func(cb func(io.Writer)) {
+		cb(io.Discard)
 	}
 }
 
